@@ -345,7 +345,7 @@ func (o Op) kindName() string {
 
 // recoverC03 reopens the crash image and applies C03's oracle.
 func recoverC03(sc *CrashScenario, img vos.Image, info crashInfo, c *Collector) (v *Violation) {
-	fw := &World{Cfg: sc.Cfg, FS: vos.FromImage(img), Model: map[string][]byte{}, GCInt: 1000 * 3600e9, Sync: 1000 * 3600e9, Keys: info.keys, Probes: info.probes}
+	fw := &World{Cfg: sc.Cfg, FS: vos.FromImage(img), Model: map[string][]byte{}, GCInt: 1000 * 3600e9, Sync: 1000 * 3600e9, Keys: info.keys, Probes: info.probes, crashed: true}
 	defer func() {
 		if r := recover(); r != nil {
 			v = violO("crash", "panic", "panic after recovery: %v", r)
